@@ -26,6 +26,7 @@ func main() {
 	outPath := flag.String("out", "-", "trace output")
 	maxSteps := flag.Int("maxsteps", 20000, "scheduler step budget per execution")
 	quiet := flag.Bool("quiet", false, "do not print E lines (observations only)")
+	hold := flag.String("hold", "", "breakpoint A|B: after a goroutine logged an event containing A, its next event containing B parks it until nobody else can run")
 	mem := flag.Bool("mem", false, "log plain memory accesses (M lines) and harness synchronisation (H lines) for the race check")
 	progOnly := flag.Bool("progs", false, "print generated programs only")
 	diff := flag.String("diff", "", "container differential to generate: fifo | pq | manager | config | codec")
@@ -68,7 +69,7 @@ func main() {
 		if rp.Program.Steps > 0 {
 			ms = rp.Program.Steps
 		}
-		res := runProgram(&rp.Program, rt.Config{Seed: rp.Seed, Strategy: "replay", Schedule: rp.Schedule, MaxSteps: ms, MaxTicks: rp.Program.MaxTicks, TickHold: rp.Program.TickHold, Mem: *mem})
+		res := runProgram(&rp.Program, rt.Config{Seed: rp.Seed, Strategy: "replay", Schedule: rp.Schedule, MaxSteps: ms, MaxTicks: rp.Program.MaxTicks, TickHold: rp.Program.TickHold, Mem: *mem, Hold: holdOf(rp.Program.Hold)})
 		emit(w, 0, &rp.Program, rp.Seed, res, *quiet)
 		return
 	}
@@ -93,6 +94,11 @@ func main() {
 			continue
 		}
 		cfg := rt.Config{Seed: es, Strategy: "random", MaxSteps: *maxSteps, MaxTicks: p.MaxTicks, TickBias: p.TickBias, TickHold: p.TickHold, Mem: *mem}
+		if *hold != "" {
+			cfg.Hold = strings.SplitN(*hold, "|", 2)
+		} else if p.Hold != "" {
+			cfg.Hold = strings.SplitN(p.Hold, "|", 2)
+		}
 		if p.Steps > 0 {
 			cfg.MaxSteps = p.Steps
 		}
@@ -150,4 +156,11 @@ func emit(w *bufio.Writer, idx int, p *Program, seed int64, res *rt.Result, quie
 		blocked = strings.ReplaceAll(strings.Join(res.Blocked, ";"), " ", "%20")
 	}
 	fmt.Fprintf(w, "END %d quiescent=%v steps=%d crashed=%s blocked=%s\n", idx, res.Quiescent, res.Steps, crashed, blocked)
+}
+
+func holdOf(h string) []string {
+	if h == "" {
+		return nil
+	}
+	return strings.SplitN(h, "|", 2)
 }
